@@ -128,7 +128,7 @@ theorem MidS.next {path sfs s} (hm : MidS path sfs s) (n : Nat) : MidS path sfs 
 
 theorem MidS.step {path sfs s} (hm : MidS path sfs s) {idx : Nat} {c c' : B} {m : FieldMeta} {f : Field} {nx : Nat}
     (hget : s.fields.get? idx = some (c, m)) (hf : sfs.toList[idx]? = some f)
-    (hg : Good c' f.dataType f.nullable f.metadata) (ha : At (path ++ "." ++ f.name) f.dataType f.nullable f.metadata c') :
+    (hg : GoodH c' f.dataType f.nullable f.metadata) (ha : At (path ++ "." ++ f.name) f.dataType f.nullable f.metadata c') :
     MidS path sfs { s with fields := s.fields.set idx c', seen := s.seen.set idx true, next := nx } :=
   ⟨hm.hpath, by simp only [BL.names_set]; exact hm.nodup, by simp only [BL.names_set]; exact hm.cache,
     by simp only [List.length_set, BL.length_set]; exact hm.seenlen, hm.kids.set hget hf hg ha⟩
@@ -229,7 +229,7 @@ theorem endFields_blo {path : String} {S : List String} : ∀ (fs : BL) (seen : 
           cases hlv : interpNull fdt fn fmd with
           | error e => rw [hlv] at hi; cases hi
           | ok lv =>
-            obtain ⟨b', hb', _⟩ := pushNone_complete b fdt fn fmd lv hk.2.2.1.wf hk.2.2.1.shape hk.2.2.1.tot hlv
+            obtain ⟨b', hb', _⟩ := pushNone_completeH b fdt fn fmd lv hk.2.2.1.wf hk.2.2.1.shape hk.2.2.1.tot hlv
             exact Bl.of_eq_ok hb'
         | false =>
           have hmem := h2 0 (.mk fname fdt fn fmd) (by simp [Fields.toList]) (by simp) hnn hi
@@ -252,7 +252,7 @@ theorem mem_structS_own' {path fs keys inner} : path ∈ structS path fs keys tr
 /-- one row of a struct builder (`start`, the field loop `pf`, `end`), the loop given in continuation-passing style -/
 theorem struct_row_bl {pf : SS → R SS} {path : String} {sfs : Fields} {n : Bool} {md : Metadata} {keys : List String}
     {own' : Bool} {inner : List String} {p len v fs cached next seen}
-    (hg : Good (.struct p len v fs cached next seen) (.struct sfs) n md)
+    (hg : GoodH (.struct p len v fs cached next seen) (.struct sfs) n md)
     (ha : At path (.struct sfs) n md (.struct p len v fs cached next seen))
     (hloop : ∀ {β : Type} (k : SS → R β) (s : SS), MidS path sfs s → SeenIs s [] → s.fields = fs → s.next = 0 →
       (∀ s', MidS path sfs s' → SeenIs s' (knownKeys sfs.toList keys) →
@@ -265,7 +265,7 @@ theorem struct_row_bl {pf : SS → R SS} {path : String} {sfs : Fields} {n : Boo
       pure s.toB : R B)) := by
   have hpath : p = path := ha.path
   have hw := hg.wf
-  simp only [WFB] at hw
+  simp only [WFH] at hw
   obtain ⟨_, _, hseen, hnd, hcache⟩ := hw
   have hkids := ha.struct_kids hg
   obtain ⟨v', hv'⟩ := setValidity_true_total v len
